@@ -87,3 +87,13 @@ def m_equal_ranges(a, b, d, c):
 def m_intersection(a, b, c):
     return intersection_len(mir(a, c), mir(b, c)) == intersection_len(a, b) and \
         overlap_intervals(mir(a, c), mir(b, c)) == mir(overlap_intervals(a, b), c) and max_range(mir(a, c), mir(b, c)) == mir(max_range(a, b), c)
+
+
+def m_overlaps_at_least(a, b, d, c):
+    # "overlap of at least d positions, or one range inside the other" is symmetric in the two ranges and blind to the direction of the axis
+    return overlaps_at_least(mir(a, c), mir(b, c), d) == overlaps_at_least(a, b, d) and overlaps_at_least(b, a, d) == overlaps_at_least(a, b, d)
+
+
+def m_overlaps_at_least_when_overlap(a, b, d, c):
+    return overlaps_at_least_when_overlap(mir(a, c), mir(b, c), d) == overlaps_at_least_when_overlap(a, b, d) and \
+        overlaps_at_least_when_overlap(b, a, d) == overlaps_at_least_when_overlap(a, b, d)
